@@ -5,11 +5,13 @@
    (written from the specification; [registry] lists them: Header, Digest, Body, BABE
    pre-digests, BABE and GRANDPA consensus digests, GRANDPA vote / signed vote / commit /
    justification / voters / equivocation proof / vote payload, the GRANDPA gossip messages,
-   the primitives' authority list / scheduled change / commit / localized payload), the proto3
+   the primitives' authority list / scheduled change / commit / localized payload / vote
+   message / signed message / generic header / justification with vote ancestries), the proto3
    model of ModelProto.v for block requests and responses, BLAKE2b-256 of Common.Blake2b for the
    header hash.  That the Go code computes these functions is the correspondence check. *)
 From Common Require Import Bytes Outcome Blake2b.
-From C14 Require Import Proofs.
+From Coq Require Import Permutation.
+From C14 Require Import Proofs ProofsPrim ProofsOrder.
 Local Open Scope N_scope.
 
 (* Every value of every wire type round-trips through its encoding (all values, all sizes) ... *)
@@ -86,6 +88,13 @@ Proof.
 Qed.
 Print Assumptions C14_header_hash_partial.
 
+(* A header decoded from the wire hashes to BLAKE2b-256 of exactly the bytes received (the
+   decoder accepts canonical encodings only, and the hash is that of the re-encoding). *)
+Theorem C14_header_hash_decoded : forall bs v, decode_all header bs = Some v ->
+  fst (header_hash (fresh v)) = blake2b_256 bs.
+Proof. exact header_hash_decoded. Qed.
+Print Assumptions C14_header_hash_decoded.
+
 (* full statement, violated by the code (finding header-hash-stale-cache):
      forall h, fst (header_hash h) = blake2b_256 (encode header (hval h)).
    Header.Hash() caches its result in the header and assignments to the exported fields do not
@@ -117,6 +126,13 @@ Theorem C14_request_roundtrip : forall r, request_ok r = true ->
 Proof. exact request_roundtrip. Qed.
 Print Assumptions C14_request_roundtrip.
 
+(* ... and in any other order of the fields: proto3 parsers must accept every order, and
+   implementations differ in the order they emit. *)
+Theorem C14_request_any_order : forall r fs, request_ok r = true ->
+  Permutation (req_fields r) fs -> decode_request (enc_fields fs) = Ok r.
+Proof. exact request_any_order. Qed.
+Print Assumptions C14_request_any_order.
+
 (* Block responses round-trip up to what proto3 can express: an empty body / receipt / message
    queue arrives as an absent one (normalise); hash, header, extrinsics, justification —
    including the empty justification — arrive unchanged. *)
@@ -124,6 +140,35 @@ Theorem C14_response_roundtrip : forall ds, forallb block_data_ok ds = true ->
   decode_response (encode_response ds) = Ok (map normalise ds).
 Proof. exact response_roundtrip. Qed.
 Print Assumptions C14_response_roundtrip.
+
+(* The primitives' generic header (internal/primitives/runtime/generic.Header, used for the
+   vote ancestries of GrandpaJustification): pkg/scale encodes its digest items without their
+   variant index ([encode_untagged], finding generic-header-digest-untagged).  On headers
+   without digest items that is the reference encoding, and the hash is BLAKE2b-256 of it; the
+   same for a justification none of whose headers carries a digest item. *)
+Theorem C14_generic_header_partial : forall v,
+  has_type prim_header v = true -> has_digest_items v = false ->
+  encode_untagged v = encode prim_header v /\ prim_header_hash v = blake2b_256 (encode prim_header v).
+Proof. intros v Ht Hd. split; [exact (untagged_no_items v Ht Hd) | exact (prim_hash_no_items v Ht Hd)]. Qed.
+Print Assumptions C14_generic_header_partial.
+
+Theorem C14_generic_justification_partial : forall v,
+  has_type prim_justification v = true -> just_has_digest_items v = false ->
+  encode_just_untagged v = encode prim_justification v.
+Proof. exact just_untagged_no_items. Qed.
+Print Assumptions C14_generic_justification_partial.
+
+(* full statement, violated by the code: forall v, has_type prim_header v = true ->
+     encode_untagged v = encode prim_header v.
+   Witness: the digest [Other 0x09]; the bytes the code produces are not even decodable as a
+   header. *)
+Theorem C14_generic_header_digest_refuted :
+  exists v, has_type prim_header v = true /\ has_digest_items v = true
+         /\ decode_all prim_header (encode prim_header v) = Some v
+         /\ encode_untagged v <> encode prim_header v
+         /\ decode_all prim_header (encode_untagged v) = None.
+Proof. exists untagged_witness. exact untagged_witness_spec. Qed.
+Print Assumptions C14_generic_header_digest_refuted.
 
 (* ---- non-vacuity ---- *)
 (* the Polkadot genesis header: its reference encoding hashes to the chain's genesis hash
@@ -163,3 +208,41 @@ Example C14_response_nonvacuous :
   block_data_ok d = true /\ normalise d <> d /\
   decode_response (encode_response [d]) = Ok [normalise d].
 Proof. vm_compute. repeat split; try reflexivity. discriminate. Qed.
+
+(* the primitives' vote message / signed message and a justification with one ancestry header *)
+Example C14_prim_types_nonvacuous :
+  let tgt := VS [VB (zeros 32); VN 7] in
+  let sm := VS [VE 1 tgt; VB (zeros 64); VB (zeros 32)] in
+  let hd := VS [VB (zeros 32); VN 6; VB (zeros 32); VB (zeros 32); VL []] in
+  let j := VS [VN 3; VS [VB (zeros 32); VN 7; VL [VS [tgt; VB (zeros 64); VB (zeros 32)]]]; VL [hd]] in
+  (exists n, In (n, prim_signed_message) registry) /\
+  (exists n, In (n, prim_justification) registry) /\
+  has_type prim_signed_message sm = true /\
+  map b2n (firstn 2 (encode prim_signed_message sm)) = [1; 0] /\
+  decode_all prim_signed_message (encode prim_signed_message sm) = Some sm /\
+  has_type prim_justification j = true /\ just_has_digest_items j = false /\
+  decode_all prim_justification (encode prim_justification j) = Some j /\
+  encode_just_untagged j = encode prim_justification j.
+Proof.
+  cbv zeta. split; [eexists; do 19 right; left; reflexivity|].
+  split; [eexists; do 21 right; left; reflexivity|].
+  vm_compute. repeat split; reflexivity.
+Qed.
+
+(* a request with its fields in an order neither protobuf-go nor field-number order produces *)
+Example C14_request_order_nonvacuous :
+  let r := mk_req 19 (FromNumber 1000) 1 (Some 128) in
+  let fs := [(3, WBytes (le_bytes 4 1000)); (6, WVarint 128); (1, WVarint (19 * 16777216)); (5, WVarint 1)] in
+  Permutation (req_fields r) fs /\ decode_request (enc_fields fs) = Ok r.
+Proof.
+  split; [|vm_compute; reflexivity].
+  cbv [req_fields req_from_field rq_data rq_from rq_dir rq_max]. cbn [N.mul N.eqb Pos.mul Pos.eqb app].
+  set (a1 := (1, WVarint _)). set (a5 := (5, WVarint _)). set (a6 := (6, WVarint _)).
+  match goal with |- Permutation _ (?x :: _) => set (a3 := x) end.
+  change [a3; a6; a1; a5] with ([a3; a6] ++ a1 :: [a5]).
+  apply Permutation_cons_app. cbn [app].
+  change [a3; a6; a5] with ([a3; a6] ++ a5 :: []).
+  apply Permutation_cons_app. cbn [app].
+  replace (N.min 1000 u32max) with 1000 by reflexivity.
+  apply perm_swap.
+Qed.
